@@ -66,6 +66,43 @@ fn unloc(m: &rssl_ast::Module) -> String {
     out
 }
 
+/// the debug text of a tree with every `[expression | type]` node ("either") replaced by its expression
+fn without_either(s: &str) -> String {
+    let b = s.as_bytes();
+    let mut out = String::with_capacity(s.len());
+    let mut i = 0;
+    while i < b.len() {
+        if b[i] == b'[' {
+            // matching bracket and the first top-level " | "
+            let mut depth = 0i32;
+            let mut j = i;
+            let mut bar = None;
+            while j < b.len() {
+                match b[j] {
+                    b'[' | b'(' | b'{' => depth += 1,
+                    b']' | b')' | b'}' => {
+                        depth -= 1;
+                        if depth == 0 {
+                            break;
+                        }
+                    }
+                    b' ' if depth == 1 && bar.is_none() && s[j..].starts_with(" | ") => bar = Some(j),
+                    _ => {}
+                }
+                j += 1;
+            }
+            if let (Some(bar), true) = (bar, j < b.len() && b[j] == b']') {
+                out.push_str(&without_either(&s[i + 1..bar]));
+                i = j + 1;
+                continue;
+            }
+        }
+        out.push(b[i] as char);
+        i += 1;
+    }
+    out
+}
+
 fn first_diff(a: &str, b: &str) -> String {
     let n = a.bytes().zip(b.bytes()).position(|(x, y)| x != y).unwrap_or(a.len().min(b.len()));
     let lo = n.saturating_sub(120);
@@ -117,6 +154,11 @@ pub fn check_record(rec: &Value) -> Verdict {
         if reparsed != original && printed.lines().any(crate::c04::template_call_shape) {
             // `name < ... > (` re-read as a template call: the root cause recorded as KF-C04-1
             return Verdict::fail("tree-changed:template-call-ambiguity", format!("target {}\n{}\n--- printed\n{}\n--- source\n{}", tname, first_diff(&original, &reparsed), printed, text));
+        }
+        if reparsed != original && without_either(&reparsed) == without_either(&original) {
+            // a template argument that was read as an expression (it was written in parentheses) is printed without
+            // them and read back as "expression or type": recorded as KF-C09-2
+            return Verdict::fail("tree-changed:expression-or-type-template-argument", format!("target {}\n{}\n--- printed\n{}\n--- source\n{}", tname, first_diff(&original, &reparsed), printed, text));
         }
         if reparsed != original {
             // an AmbiguousParseBranch in the re-parse is fine when one of its branches is the original
@@ -319,7 +361,16 @@ fn expr_program(x: &X, position: u8) -> String {
     let mut e = String::new();
     render_x(x, &mut e);
     let head = "struct S { int m; float3 xyz; };\n";
-    match position % 6 {
+    match position % 14 {
+        // positions outside of function bodies: the comma and the angle brackets mean something else around them
+        6 => format!("{}void f(int a, int b = ({})) {{\n}}\n", head, e),
+        7 => format!("{}static const int a = 1;\nstatic const int b = 2;\nstatic const int c = 3;\nenum En {{ EA = ({}), EB }};\n", head, e),
+        8 => format!("{}static const int a = 1;\nstatic const int b = 2;\nstatic const int c = 3;\nstatic int arr[({})];\nstruct T {{ int m2[({})]; }};\n", head, e, e),
+        9 => format!("{}static const int a = 1;\nstatic const int b = 2;\nstatic const int c = 3;\n[numthreads(({}), 1, ({}))]\nvoid f() {{\n}}\n", head, e, e),
+        10 => format!("{}static const int a = 1;\nstatic const int b = 2;\nstatic const int c = 3;\nstatic int v = ({});\nstatic const int w[2] = {{ ({}), 1 }};\n", head, e, e),
+        11 => format!("{}void f(int a, int b, int c, float x, uint n) {{\n    int v = tfn<({})>(a);\n    tfn<int, ({})>(a, ({}));\n}}\n", head, e, e, e),
+        12 => format!("{}void f(int a, int b, int c, float x, uint n) {{\n    switch (a) {{ case ({}): break; default: break; }}\n    do {{ a++; }} while (({}));\n    for (; ({}); ({})) {{ }}\n}}\n", head, e, e, e, e),
+        13 => format!("{}void f(int a, int b, int c, float x, uint n) {{\n    int v[2] = {{ ({}), ({}) }};\n    S s = {{ ({}), float3(({}), 0, 0) }};\n    fn(({}), ({}));\n}}\n", head, e, e, e, e, e, e),
         0 => format!("{}void f(int a, int b, int c, float x, uint n) {{\n    {};\n}}\n", head, e),
         1 => format!("{}int f(int a, int b, int c, float x, uint n) {{\n    return {};\n}}\n", head, e),
         2 => format!("{}void f(int a, int b, int c, float x, uint n) {{\n    int v = ({});\n}}\n", head, e),
@@ -369,7 +420,21 @@ fn pair_programs() -> Vec<String> {
         v.push(X::Member(Box::new(inner.clone()), "m"));
         v.push(X::Call("fn".into(), vec![inner.clone(), inner.clone()]));
     }
-    v.iter().map(|x| expr_program(x, 0)).collect()
+    let mut out: Vec<String> = v.iter().map(|x| expr_program(x, 0)).collect();
+    // every operator (alone and over / under the comma and the comparison operators) in every other position
+    let mut small: Vec<X> = inners.clone();
+    for inner in &inners {
+        for op in [",", "<", ">", ">>", "="] {
+            small.push(X::Bin(op, Box::new(inner.clone()), l("c")));
+            small.push(X::Bin(op, l("c"), Box::new(inner.clone())));
+        }
+    }
+    for x in &small {
+        for position in 1..14u8 {
+            out.push(expr_program(x, position));
+        }
+    }
+    out
 }
 
 fn repo_texts() -> Vec<String> {
@@ -390,7 +455,7 @@ fn repo_texts() -> Vec<String> {
 }
 
 pub fn run(ctx: &mut Ctx) {
-    ctx.rule = "Trees T are obtained by parsing: (1) every (outer, inner, side) combination of the 30 binary, 6 prefix, 2 postfix operators, ternary, cast, subscript, member and call at depth 2 (exhaustive); (2) random expression trees to depth 6 over those nodes plus template calls, constructors, sizeof and 37 literal spellings of every kind (incl. 18446744073709551615, 1e300L, 1e-320, 16777217.0f, 1.#INF), placed as expression statement, return value, initialiser, if/while condition, for-init, call argument, aggregate element and switch body, with every compound operand parenthesised in the source so any shape is reachable; (3) whole generated programs (all statement forms, declarators, templates, struct/enum definitions); (4) the repository's own inputs; (5) the HLSL and MSL(HLSL re-read) text the exporters emit for generated programs. Oracle: format(T, Hlsl) and format(T, Msl) parse, and the re-parsed tree equals T after removing source locations. Trees whose printing reports AmbiguousParseBranch are not printable (counted). Non-trivial = >= 3 operator characters or a non-integer literal. Distinct = hash of the source text.".into();
+    ctx.rule = "Trees T are obtained by parsing: (1) every (outer, inner, side) combination of the 30 binary, 6 prefix, 2 postfix operators, ternary, cast, subscript, member and call at depth 2 (exhaustive); (2) random expression trees to depth 6 over those nodes plus template calls, constructors, sizeof and 37 literal spellings of every kind (incl. 18446744073709551615, 1e300L, 1e-320, 16777217.0f, 1.#INF), placed as expression statement, return value, initialiser, if/while/do/for condition and increment, for-init, call argument, aggregate element, switch body and case label, default argument, enumerator value, array size (global and member), attribute argument, global initialiser and template argument, with every compound operand parenthesised in the source so any shape is reachable; (3) whole generated programs (all statement forms, declarators, templates, struct/enum definitions); (4) the repository's own inputs; (5) the HLSL and MSL(HLSL re-read) text the exporters emit for generated programs. Oracle: format(T, Hlsl) and format(T, Msl) parse, and the re-parsed tree equals T after removing source locations. Trees whose printing reports AmbiguousParseBranch are not printable (counted). Non-trivial = >= 3 operator characters or a non-integer literal. Distinct = hash of the source text.".into();
     ctx.assumptions.push("trees are built by the parser from explicitly grouped text rather than constructed in memory: a tree shape the parser can never produce (e.g. a negative literal node) is not covered".into());
     ctx.assumptions.push("INFINITY / FLT_MAX are Metal spellings the RSSL lexer cannot read back: the infinity literal and FLT_MAX are excluded for the Msl target".into());
     if !ctx.replay_tier(&check_record) {
